@@ -100,7 +100,7 @@ func main() {
 		}
 		return true
 	})
-	// fault point after first defer in encode/decode methods
+	// fault point after the leading defer statement(s) of the encode/decode methods
 	for _, d := range f.Decls {
 		fd, ok := d.(*ast.FuncDecl)
 		if !ok || fd.Recv == nil || fd.Body == nil || (fd.Name.Name != "encode" && fd.Name.Name != "decode") {
@@ -108,6 +108,15 @@ func main() {
 		}
 		for i, s := range fd.Body.List {
 			if _, ok := s.(*ast.DeferStmt); ok {
+				// a fault can only be raised once ALL the leading deferred handlers are registered:
+				// skip over the run of consecutive defer statements (e.g. a recover handler and a
+				// separate hand-off function)
+				for i+1 < len(fd.Body.List) {
+					if _, more := fd.Body.List[i+1].(*ast.DeferStmt); !more {
+						break
+					}
+					i++
+				}
 				fp := &ast.ExprStmt{X: &ast.CallExpr{Fun: &ast.SelectorExpr{X: ast.NewIdent("vcoop"), Sel: ast.NewIdent("FaultPoint")}, Args: []ast.Expr{&ast.BasicLit{Kind: token.STRING, Value: strconv.Quote(fd.Name.Name + ".compute")}}}}
 				rest := append([]ast.Stmt{fp}, fd.Body.List[i+1:]...)
 				fd.Body.List = append(fd.Body.List[:i+1:i+1], rest...)
